@@ -319,7 +319,11 @@ pub fn drive(plan: Plan, tier: Tier) -> ! {
                         break;
                     }
                     let u = &plan.units[i];
+                    let tu = Instant::now();
                     let r = catch_unwind(AssertUnwindSafe(|| (u.run)(&mut st, &rep)));
+                    if std::env::var_os("VERIF_UNIT_TIMES").is_some() {
+                        eprintln!("UNIT {:8.3}s {} :: {}", tu.elapsed().as_secs_f64(), u.scope, u.name);
+                    }
                     OBS.with(|o| {
                         for h in std::mem::take(&mut *o.borrow_mut()) {
                             st.outcome(h);
